@@ -24,6 +24,34 @@ def documented_exception(tr):
     return False, {"exc": typ, "where": where}
 
 
+def criterion_reference(stop, le, world):
+    """The documented stopping criterion (an OR of atomic, strict comparisons) evaluated on the status figures of one
+    loop end.  In a simulated experiment wall-clock time is the simulated time stamp of the results."""
+    W = stop.get("max_wallclock_time")
+    if W is not None:
+        if world == "sim":
+            tt = (le.get("maxm") or {}).get("st_tuner_time")
+            if tt is not None and tt > W:
+                return "max_wallclock_time"
+        elif le["wall"] > W:
+            return "max_wallclock_time"
+    for field, key in (("max_num_trials_started", "started"), ("max_num_trials_completed", "completed"),
+                       ("max_num_trials_finished", "finished"), ("max_num_evaluations", "nevals"), ("max_cost", "cost")):
+        K = stop.get(field)
+        if K is not None and le.get(key) is not None and le[key] > K:
+            return field
+    if le["nevals"] > 0:
+        for name, K in (stop.get("max_metric_value") or {}).items():
+            v = (le.get("maxm") or {}).get(name)
+            if v is not None and v > K:
+                return "max_metric_value"
+        for name, K in (stop.get("min_metric_value") or {}).items():
+            v = (le.get("minm") or {}).get(name)
+            if v is not None and v < K:
+                return "min_metric_value"
+    return None
+
+
 def check(tr):
     out = []
     scen = tr.scen
@@ -31,6 +59,15 @@ def check(tr):
     nW = t["n_workers"]
     wait = t["wait_trial_completion_when_stopping"]
     les = tr.loop_ends
+    # ---- R6: the criterion the loop consults says what the user's criterion says -------------
+    for le in les:
+        if not isinstance(le["crit"], bool) or "maxm" not in le:
+            continue
+        ref = criterion_reference(t["stop"], le, tr.world)
+        if (ref is not None) != le["crit"]:
+            out.append(V("C12", "R6.criterion_value", tr, "stopping criterion %s evaluates to %s at a loop end where the documented rule gives %s (%s)" % (
+                {k: v for k, v in t["stop"].items()}, le["crit"], ref is not None, ref or "no atomic criterion holds"), le["s"], field=ref))
+            break
     # ---- first loop end at which the loop must stop -----------------------------
     first = None
     for le in les:
